@@ -85,6 +85,47 @@ def main():
             out["invalid"].append(("no-exception", False))
         except Exception as e:         # noqa: BLE001
             out["invalid"].append((type(e).__name__, isinstance(e, fj.JSONDecodeError)))
+    # every OTHER public encoder the module offers (a bytes variant, a framing variant, ...): discovered here, called with
+    # each combination of its boolean keyword arguments
+    import inspect
+    import itertools
+    out["encoders"] = {}
+    if req.get("encoder_values") is not None:
+        names = [n for n in getattr(fj, "__all__", dir(fj)) if "dumps" in n and n != "dumps" and callable(getattr(fj, n, None))]
+        for n in names:
+            f = getattr(fj, n)
+            try:
+                params = inspect.signature(f).parameters.values()
+            except (TypeError, ValueError):
+                continue
+            flags = [p.name for p in params if isinstance(p.default, bool)]
+            rows = {}
+            for combo in itertools.product([False, True], repeat=len(flags)):
+                kw = dict(zip(flags, combo))
+                row = []
+                for v in req["encoder_values"]:
+                    if isinstance(v, tuple) and v and v[0] == "$deep":
+                        v = build(v[1], v[2], 1)
+                    try:
+                        r = f(v, **kw)
+                    except Exception as e:     # noqa: BLE001
+                        row.append(("exc", type(e).__name__))
+                        continue
+                    b = r.encode("utf-8") if isinstance(r, str) else bytes(r) if isinstance(r, (bytes, bytearray)) else None
+                    if b is None:
+                        row.append(("other", type(r).__name__))
+                        continue
+                    body = b[:-1] if b.endswith(b"\n") else b
+                    try:
+                        val = stdlib_json.dumps(stdlib_json.loads(body.decode("utf-8")), sort_keys=True)
+                        if len(val) > 400:
+                            import hashlib
+                            val = "sha1:" + hashlib.sha1(val.encode()).hexdigest()
+                    except Exception as e:     # noqa: BLE001
+                        val = "undecodable:" + type(e).__name__
+                    row.append(("ok", type(r).__name__, b.endswith(b"\n"), (b"\n" in body) or (b"\r" in body), val))
+                rows[repr(sorted(kw.items()))] = row
+            out["encoders"][n] = rows
     sys.stdout.buffer.write(pickle.dumps(out, protocol=4))
 
 
